@@ -34,9 +34,13 @@ void __asan_unpoison_memory_region(void const volatile*, size_t);
 }
 static void quiet(int, const char*, int, const char*, const char*) {}
 
-struct Cfg { int kind, binning, type; uint32_t w, h, ox, oy; };
-static std::string cfg_str(const Cfg& c) { char b[96]; snprintf(b, sizeof b, "%d,%d,%d,%u,%u,%u,%u", c.kind, c.binning, c.type, c.w, c.h, c.ox, c.oy); return b; }
-static bool parse_cfg(const char* s, Cfg& c) { return sscanf(s, "%d,%d,%d,%u,%u,%u,%u", &c.kind, &c.binning, &c.type, &c.w, &c.h, &c.ox, &c.oy) == 7; }
+struct Cfg { int kind, binning, type; uint32_t w, h, ox, oy; int fa = -1; /* >= 0: the fa-th buffer allocation of this set call fails (out of memory) */ };
+static std::string cfg_str(const Cfg& c) { char b[112]; int n = snprintf(b, sizeof b, "%d,%d,%d,%u,%u,%u,%u", c.kind, c.binning, c.type, c.w, c.h, c.ox, c.oy); if (c.fa >= 0) snprintf(b + n, sizeof b - n, ",fa=%d", c.fa); return b; }
+static bool parse_cfg(const char* s, Cfg& c) { c.fa = -1; const char* f = strstr(s, ",fa="); if (f) c.fa = atoi(f + 4); return sscanf(s, "%d,%d,%d,%u,%u,%u,%u", &c.kind, &c.binning, &c.type, &c.w, &c.h, &c.ox, &c.oy) == 7; }
+// allocation failures: the camera's realloc calls go through here (link-time --wrap); the real one is AddressSanitizer's
+extern "C" void* __real_realloc(void*, size_t);
+static int g_fail_realloc_at = -1, g_reallocs;
+extern "C" void* __wrap_realloc(void* p, size_t n) { if (g_fail_realloc_at >= 0 && g_reallocs++ == g_fail_realloc_at) return nullptr; return __real_realloc(p, n); }
 
 struct Shared { char verdict[16]; char clause[64]; char detail[400]; int asan_errors; };
 static Shared* SH;
@@ -63,6 +67,13 @@ static void apply_and_check(struct Camera* cam, const Cfg& c, int step)
     struct CameraProperties p; memset(&p, 0, sizeof p);
     p.exposure_time_us = 1500; p.binning = (uint8_t)c.binning; p.pixel_type = (enum SampleType)c.type;
     p.shape.x = c.w; p.shape.y = c.h; p.offset.x = c.ox; p.offset.y = c.oy;
+    if (c.fa >= 0) {
+        // this set call runs out of memory at its fa-th buffer allocation: it may fail, but nothing may be left pointing at released memory
+        g_reallocs = 0; g_fail_realloc_at = c.fa;
+        camera_set(cam, &p);
+        g_fail_realloc_at = -1;
+        return;
+    }
     if (camera_set(cam, &p) != Device_Ok) { fail("set-rejected", "step %d: camera_set rejected configuration %s", step, cfg_str(c).c_str()); return; }
     uint32_t maxdim = 8192u / (uint32_t)c.binning;
     uint32_t W = clampu(c.w, 1, maxdim), H = clampu(c.h, 1, maxdim);
@@ -132,6 +143,7 @@ static void child(const std::vector<Cfg>& seq)
     for (size_t i = 0; i < seq.size() && !strcmp(SH->verdict, "run"); ++i) {
         apply_and_check(cam, seq[i], (int)i);
         if (strcmp(SH->verdict, "run")) break;
+        if (seq[i].fa >= 0) continue; // after a set call that failed the camera awaits configuration: the next step configures it again
         frames(cam, seq[i], (int)i, 2);
     }
     camera_close(cam);
@@ -216,6 +228,14 @@ int main(int argc, char** argv)
     for (size_t i = 0; i < cfgs.size(); ++i) {
         if (!thorough && i % 7) continue;
         for (auto p : partners) { p.kind = cfgs[i].kind; if (cfgs[i].w > 2000 && cfgs[i].h > 2000) continue; seqs.push_back({ cfgs[i], p }); seqs.push_back({ p, cfgs[i] }); }
+    }
+    // a re-configuration that runs out of memory at its first or second buffer allocation, then the same configuration again, frames, close
+    {
+        size_t n0 = seqs.size();
+        for (size_t i = 0; i < n0; ++i) {
+            if (seqs[i].size() != 2 || (!thorough && i % 5)) continue;
+            for (int fa = 0; fa < 2; ++fa) { Cfg bad = seqs[i][1]; bad.fa = fa; seqs.push_back({ seqs[i][0], bad, seqs[i][1] }); }
+        }
     }
     struct V { std::string clause, detail, spec; unsigned long long count; };
     std::map<std::string, V> viols;
